@@ -47,6 +47,20 @@ PROPS = {
         explanation="Theorems: by id / name / identifier / root membership / purl type return precisely the nodes meeting the criterion (identifier-type spellings from the generated tables); GetMatchingNode equals the documented rule on lists with unique identifiers, never returns a node outside the list (all lists), is sound, and is invariant under every permutation of the node list (unique identifiers; refuted with repeated identifiers = known finding K11). Tie: all six lookups observed on random lists vs Model/Match.v; matching repeated 20x and on shuffled lists.",
         assumptions=[GRAPH_NOTE, "strings.ToLower/TrimSpace are modelled for ASCII (generator uses ASCII spellings)", "Go map iteration order is abstracted: the model iterates in list order and the theorem proves the outcome independent of it"],
     ),
+    "C11": dict(
+        props_v="Props/C11.v",
+        corr_v=["Corr/CheckHeap.v"],
+        n_quick=30, n_thorough=600,
+        explanation="PARTIAL. Theorems (object-graph model, Model/Heap.v: message structs, slice backing arrays and maps as locations): the copying operations only allocate — every location of the heap the operands live in is unchanged, for every heap and value — hence every snapshot of an operand after the call equals the one before it, and stores into a private result are invisible through a shared operand. Observed, not proved: for every read-only or value-returning public operation (compare, checksum, diff, copy, look-ups, traversals, union, intersect, 7 serializers) the harness records the operands' real object graph by pointer identity before and after the call and the Coq evaluator checks it is the same graph (values order-sensitively, shape, sharing); a race-detector build runs the operations from 16 goroutines on one shared document and compares with sequential results.",
+        assumptions=["the comparing/hashing/diffing/look-up/traversal/serializing operations are functions of the operand graph in the value models of C07, C13-C16; that their implementation performs no write is what the before/after observation and the race detector decide", "absence of data races for all interleavings is not a theorem: it follows for operations that do not write, which is observed"],
+    ),
+    "C12": dict(
+        props_v="Props/C12.v",
+        corr_v=["Corr/CheckHeap.v"],
+        n_quick=30, n_thorough=600,
+        explanation="Theorems (object-graph model): for every heap and every value, the model's deep copy only extends the heap and no location is reachable both from the copy and from the source (any nesting, any field, lists and maps included); a store to a location a value does not reach leaves every snapshot of it unchanged (so mutating one side never changes the other); later allocations never alter earlier results. Correspondence: Node/Edge/Person/ExternalReference/NodeList Copy against the model's deep copy on the real object graph recorded by pointer identity (same values, same shape, same sharing, including each method's nil/empty conventions; field positions from the generated Go struct table). Union and Intersect: separation of result and operands evaluated on the observed graphs with the same predicate (not modelled on this level), plus histories of two calls sharing a receiver with spare capacity and an overwrite of every mutable part of the later result. Three genuine defects repaired (753edef, caa1ae7, 6d22e2c).",
+        assumptions=["Union / Intersect independence is decided on observed graphs, their heap-level assembly is not modelled (partial for those two)", "sub-slice aliasing with different base pointers is not represented (does not occur in the code)", "that a copy compares equal to its source is checked by the oracle with the real Equal; as a theorem it is the HCopy correspondence plus C13"],
+    ),
     "C13": dict(
         props_v="Props/C13.v",
         corr_v=["Corr/CheckC13.v"],
